@@ -502,7 +502,7 @@ func TestC19Rapid(t *testing.T) {
 				rt.Fatalf("C19 violated at step %d: %s\nhistory:\n%s", i, fmt.Sprintf(f, a...), strings.Join(w.log, "\n"))
 			}
 			pre := w.chanStates()
-			op := drawWeighted(rt, "op", []weighted{{"create", 4}, {"metadata", 5}, {"challenger", 3}, {"use-channel", 1}, {"other-role", 2}})
+			op := drawWeighted(rt, "op", []weighted{{"create", 4}, {"metadata", 5}, {"challenger", 3}, {"use-channel", 1}, {"other-role", 2}, {"new-chain", 1}})
 			if len(w.bridges) == 0 {
 				op = "create"
 			}
@@ -517,6 +517,28 @@ func TestC19Rapid(t *testing.T) {
 					w.e.Chan.Set(w.e.Ctx, ch.port, ch.channel, s.seq+1)
 					w.logf("channel %s/%s sends a packet", ch.port, ch.channel)
 				}
+				return
+			case "new-chain":
+				// a new chain is started from the exported bridge state (accounts, balances, bridges, channels with their
+				// send sequences) while the channel-permission module starts empty: the bridges keep their lists, and the
+				// next challenger update of a bridge still hands its listed channels to the new challenger
+				old := w.e
+				n := henv.NewL1(henv.L1Options{})
+				n.Ctx = n.Ctx.WithBlockHeight(old.Ctx.BlockHeight()).WithBlockTime(old.Ctx.BlockTime())
+				n.AK.InitGenesis(n.Ctx, *old.AK.ExportGenesis(old.Ctx))
+				n.BK.InitGenesis(n.Ctx, old.BK.ExportGenesis(old.Ctx))
+				for ch, st := range pre {
+					if st.exists {
+						n.Chan.Set(n.Ctx, ch.port, ch.channel, st.seq)
+					}
+				}
+				var gs ophosttypes.GenesisState
+				old.Enc.Marshaler.MustUnmarshalJSON(old.Enc.Marshaler.MustMarshalJSON(old.K.ExportGenesis(old.Ctx)), &gs)
+				n.K.InitGenesis(n.Ctx, &gs)
+				w.e = n
+				w.logf("new chain from the exported bridge state, channel permissions empty | %s", renderStates(w.chanStates()))
+				c.Class("new-chain-from-exported-bridges-with-empty-channel-permissions")
+				shape += "g"
 				return
 			case "other-role":
 				// the other role messages of a bridge (proposer rotation, batch info): they say nothing about channels,
